@@ -1464,7 +1464,7 @@ def gen_C16(rng, tier, changed):
     for n in sizes:
         for t in (threads if tier != 'quick' else rng.sample(threads, 3)):
             # delay + 16: the parallel iterators are built under the ambient pool and driven inside the case's pool
-            for delay in ((0, 1, 2, 3, 16, 18) if tier != 'quick' else (rng.randrange(4), 16 + rng.randrange(4))):
+            for delay in ((0, 1, 2, 3, 16 + rng.randrange(4)) if tier != 'quick' else (rng.randrange(4), 16 + rng.randrange(4))):
                 order = rng.randrange(2)
                 sh = Shadow()
                 if n <= 16:
@@ -1991,12 +1991,12 @@ def gen_C03(rng, tier, changed):
                 # rounds of a thorough run repeat them (and drop them as duplicates) instead of multiplying them.
                 fixed = random.Random(f'C03-exhaustive-{r}-{c}-{order}-{nm}')
                 base_scripts = all_nested_scripts(nvec, L, (0, 1, 2))
-                if len(base_scripts) > 6000:
-                    base_scripts = all_nested_scripts(nvec, L - 1, (0, 1, 2)) + fixed.sample(base_scripts, 6000)
+                if tier != 'quick' and len(base_scripts) > 2500:
+                    base_scripts = all_nested_scripts(nvec, L - 1, (0, 1, 2)) + fixed.sample(base_scripts, 2500)
                 extra = all_nested_scripts(nvec, 3)
                 if tier != 'quick':
                     longer = all_nested_scripts(nvec, 4)
-                    extra += fixed.sample(longer, min(len(longer), 1500))
+                    extra += fixed.sample(longer, min(len(longer), 600))
                 for scr in base_scripts + extra:
                     ops.append(op(nm, 0, 0, rows=[scr]))
                 cases.append(Case(f'C03-x{r}x{c}o{order}{nm[5]}', ops, ('w24' if order else 'tr') if nm[5] == 'r' else ('b1' if order else 'tr')))
